@@ -38,6 +38,8 @@ def apply_outcome(value, o, tol, x=0.0):
         return base + tol * 4 + (1.0 if tol == 0 else 0.0)
     if o == 'huge':
         return 1.0e308        # finite, but two of them no longer add up to a finite number
+    if o == 'nhuge':
+        return -1.0e308       # finite; its distance from 'huge' is not
     if o == 'nan':
         return math.nan
     if o == 'pinf':
@@ -263,7 +265,8 @@ def run_solve_t(Model, case):
         kw['offset'] = case['offset']
     obs = {}
     with warnings.catch_warnings():
-        warnings.simplefilter('ignore')
+        # the caller's own warnings set-up (process-wide filters such as -W error) is none of the solver's business: the outcome is the same
+        warnings.simplefilter(case.get('caller_filter') or 'ignore')
         try:
             if case.get('entry') == 'solve_period':
                 obs['ret'] = m.solve_period(m.span[tn], **kw)
